@@ -38,6 +38,23 @@ def cases(tier, seed):
     spec = gm.float_model_spec(rnd)
     out.append({"spec": spec, "dict": gm.quantization_dict(spec, rnd), "bits": rnd.choice([3, 4, 6]),
                 "transfer": bool(rnd.randint(0, 1)), "idx": i, "seed": seed})
+  # focus: models with a *selected* Bidirectional wrapper that carries an explicit backward layer (rare in the
+  # random stream above); drawn by rejection from the same generators
+  nf = 8 if tier == "quick" else 80
+  j = 0
+  while nf and j < 20000:
+    rnd = random.Random(seed * 104723 + 1000003 + j)
+    j += 1
+    spec = gm.float_model_spec(rnd)
+    bi = [l for l in spec["layers"] if l["t"] == "Bidirectional" and l["kw"].get("backward")]
+    if not bi:
+      continue
+    d = gm.quantization_dict(spec, rnd)
+    if not any(l["name"] in d for l in bi) and "QBidirectional" not in d:
+      continue
+    out.append({"spec": spec, "dict": d, "bits": rnd.choice([3, 4, 6]), "transfer": bool(rnd.randint(0, 1)),
+                "idx": len(out), "seed": seed})
+    nf -= 1
   return out
 
 
@@ -257,6 +274,20 @@ def run_case(case, ctx):
       if type(target).__name__ != qclass:
         ctx.violation(dict(sig, kind="bidirectional_inner_not_converted", got=type(target).__name__), l.name, None)
         continue
+      bwd = getattr(ql, "backward_layer", None)
+      ctx.count("bidirectional_backward_checked")
+      if bwd is None or type(bwd).__name__ != qclass:
+        ctx.violation(dict(sig, kind="bidirectional_inner_not_converted", got=type(bwd).__name__, which="backward"),
+                      "%s: backward layer is %s, expected %s" % (l.name, type(bwd).__name__, qclass), None)
+      elif exp["roles"]:
+        try:
+          gb = [qdesc(q) for q in bwd.get_quantizers()]
+          gf = [qdesc(q) for q in target.get_quantizers()]
+        except Exception:  # pylint: disable=broad-except
+          gb = gf = None
+        if gb != gf:
+          ctx.violation(dict(sig, kind="bidirectional_backward_quantizers_differ_from_forward"),
+                        "%s: backward %s, forward %s" % (l.name, [g and g[2] for g in (gb or [])], [g and g[2] for g in (gf or [])]), None)
     if exp["roles"] or qclass == "QBatchNormalization":
       ok2, want = ctx.call(dict(sig, op="direct_constructor"), direct_quantizers, qclass, exp["roles"])
       if ok2:
